@@ -27,6 +27,11 @@ def run(ctx, rep):
     rep.rule('R02.pos', 'index positions point at batch starts: writers and forms of Segment.last_index_position (end of log at load, + batch size at persist)', floor=2, analysis='A10')
     sf.check(ctx, rep, 'R02.pos', part_fields=(), seg_fields=('last_index_position',))
 
+    # ------------------------------------------------------------ R02.h a polled message is handed back whole: with encryption the plaintext payload comes with its own length
+    rep.rule('R02.h', 'with server-side encryption a polled message is returned with the plaintext payload and the length of that plaintext (the binary response frames every message by its length field)', floor=1, analysis='A10 aggregate forms')
+    from props.c19 import _rebuilt_length
+    _rebuilt_length(ctx, rep, 'R02.h')
+
     # ------------------------------------------------------------ R02.g the cache window: both slice bounds are relative to the first cached offset
     rep.rule('R02.g', 'a poll served from the message cache takes cache[(start - first) .. min(len, end - first + 1)]: both bounds are relative to the offset of the first cached message', floor=2, analysis='A10 aggregate forms')
     forms.check_aggregates(ctx, rep, 'R02.g', {rf.P + '::load_messages_from_cache': {'std::ops::Range': {
@@ -80,7 +85,7 @@ def run(ctx, rep):
     disk = [c for c in sb.calls if c.name.endswith('Segment::load_messages_from_disk')]
     buf = [c for c in sb.calls if c.name.endswith('Segment::load_messages_from_unsaved_buffer')]
     # the mixed path is the one whose buffer call takes max(offset, first)
-    mixed = [c for c in buf if has_call_last(sb.pexpr_operand(c.args[1]), 'max')]
+    mixed = [c for c in buf if has_call_last(sb.pexpr_operand(c.args[1], 0, frozenset(), (c.bb, "t")), 'max')]
     if not disk or not mixed:
         rep.anchor_lost('R02.c', 'mixed tier path in Segment::get_messages_by_offset')
     else:
